@@ -57,6 +57,36 @@ MUST_REFERENCE = dict(COMPONENT_SETS)
 MUST_REFERENCE.pop("ada::url_aggregator::set_hash")   # delegates to update_unencoded_base_hash
 
 
+def _owners_calling(fx, f, known, depth=0, seen=None):
+    """mapped component functions that reach f through first-party calls (lambdas count for their enclosing function);
+    empty if some call chain ends outside the map or nobody calls f"""
+    seen = seen if seen is not None else set()
+    if f["key"] in seen or depth > 3:
+        return set()
+    seen.add(f["key"])
+    out = set()
+    direct = []
+    for g in fx.functions:
+        if not C.first_party(g) or not g.get("blocks"):
+            continue
+        if any(n.get("k") == "call" and n.get("callee") == f["key"] for n, s, b in C.all_nodes(g)):
+            direct.append(g)
+    if not direct:
+        return set()
+    for g in direct:
+        owner = g["qname"]
+        if g.get("lambda") and " in " in g["key"]:
+            owner = g["key"].split(" in ", 1)[1].split("(")[0].split("<")[0]
+        if owner in known:
+            out.add(owner)
+            continue
+        up = _owners_calling(fx, g, known, depth + 1, seen)
+        if not up:
+            return set()
+        out |= up
+    return out
+
+
 def make_ctx(tier):
     return Ctx(PROP, tier, "proof",
                "R1: each of the 7 *_PERCENT_ENCODE bitmaps compared with the Standard's set for all 256 bytes; "
@@ -170,7 +200,7 @@ def check_config(ctx, fx, cfg):
                       and mul["l"].get("ty") in ("uint8_t", "unsigned char"))
             ctx.check("R2", "use:%s" % C.short(f), ok, X.show(n),
                       "use of hex[] is not append(hex + uint8_t(x)*4, 3): " + X.show(n), where=s.get("loc", ""))
-    ctx.floor("R2", uses, 4, "references to hex[]")
+    ctx.floor("R2", uses, 1, "references to hex[]")
 
     # ---- R3b: a function that receives the encode set as a parameter uses that parameter ---------
     ngen = 0
@@ -223,8 +253,21 @@ def check_config(ctx, fx, cfg):
             owner = owner.split("<")[0]
         allowed = COMPONENT_SETS.get(owner)
         if allowed is None:
-            ctx.broken("R3: encode set referenced from a function outside the frozen component map: %s (%s) — "
-                       "triage and add it to rules/c11.py COMPONENT_SETS" % (f["key"], f["loc"]))
+            # a helper extracted from component functions (`percent_encode_userinfo(...)`): its set is used on behalf of
+            # its callers, each of which must be a mapped component that allows the set
+            callers = _owners_calling(fx, f, COMPONENT_SETS)
+            if not callers:
+                ctx.broken("R3: encode set referenced from a function outside the frozen component map: %s (%s) — "
+                           "triage and add it to rules/c11.py COMPONENT_SETS" % (f["key"], f["loc"]))
+            for c_owner in sorted(callers):
+                seen_fns.add(c_owner)
+                for sname, s in refs:
+                    nref += 1
+                    ctx.check("R3", "%s (through %s) uses %s" % (c_owner, owner.split("::")[-1], sname),
+                              sname in COMPONENT_SETS[c_owner], "allowed sets for this component: %s" % sorted(COMPONENT_SETS[c_owner]),
+                              "%s encodes through the helper %s, which refers to the %s set; the component must use %s"
+                              % (c_owner, owner, sname, sorted(COMPONENT_SETS[c_owner])), where=s.get("loc", ""))
+            continue
         seen_fns.add(owner)
         for sname, s in refs:
             nref += 1
@@ -305,9 +348,23 @@ def check_config(ctx, fx, cfg):
 
     # ---- R5 ------------------------------------------------------------------
     encs = [f for f in fx.functions if f["qname"] == "ada::unicode::percent_encode"]
-    ctx.floor("R5", len(encs), 4, "percent_encode overloads/instantiations")
-    for f in encs:
+    ctx.floor("R5", len(encs), 2, "percent_encode overloads/instantiations")
+    # the loop may live in the overloads themselves or in a helper they all call (`append_percent_encoded(...)`)
+    loops = {}
+    for f in fx.functions:
+        if C.first_party(f) and f["qname"].startswith("ada::unicode::") and f.get("blocks") and not f.get("lambda"):
+            n_if = check_encoder_loop(ctx, f, count_only=True)
+            writes_hex = any(n.get("k") == "ref" and n.get("qname") == "ada::character_sets::hex" for n, s, b in C.all_nodes(f))
+            if n_if and writes_hex:          # (percent_encode_index scans with bit_at but writes nothing)
+                loops[f["key"]] = f
+    for f in loops.values():
         check_encoder_loop(ctx, f)
+    for f in encs:
+        own = f["key"] in loops
+        via = [n for n, s, b in C.all_nodes(f) if n.get("k") == "call" and n.get("callee") in loops]
+        ctx.check("R5", "%s encodes through a bit_at loop" % f["key"], own or bool(via),
+                  "own loop" if own else "through %s" % ", ".join(sorted({n["name"] for n in via})),
+                  "%s neither contains the encoder loop nor calls a function that does" % f["key"], where=f["loc"])
 
     # ---- R6 ------------------------------------------------------------------
     f = fx.fn1("ada::character_sets::bit_at")
@@ -334,11 +391,21 @@ def check_config(ctx, fx, cfg):
               "bit_at no longer reads bit (i&7) of a[i>>3] with a uint8_t index", where=f["loc"])
 
 
-def check_encoder_loop(ctx, f):
+def check_encoder_loop(ctx, f, count_only=False):
     """In each percent_encode body: a branch on bit_at(character_set, *p); true edge
     appends hex + uint8_t(*p)*4; false edge appends *p."""
     blocks = {b["id"]: b for b in f["blocks"]}
     found = 0
+    if count_only:
+        for b in f["blocks"]:
+            c = b["term"].get("cond")
+            cc = X.strip(c) if c is not None else None
+            while isinstance(cc, dict) and cc.get("k") == "un" and cc.get("op") == "!":
+                cc = X.strip(cc["e"])
+            if isinstance(cc, dict) and cc.get("k") == "call" and cc.get("qname") == "ada::character_sets::bit_at" \
+                    and b["term"].get("kind") == "IfStmt":
+                found += 1
+        return found
     for b in f["blocks"]:
         c = b["term"].get("cond")
         if c is None:
